@@ -194,6 +194,13 @@ pub fn repeat_scan(net: &crate::sim::Net, max_len: usize) -> (usize, Option<serd
         if b.len() < 32 || b.len() > max_len {
             continue;
         }
+        // only messages whose elements are blinded individually: base-OT points, OT-extension columns and
+        // corrections, garbled rows. (MAC-bearing share vectors legitimately repeat a value: a NOT gate's
+        // output register carries its input's share; echo messages repeat hashes of equal messages.)
+        let label = net.label(m.label);
+        if !(label.starts_with("CO_OT") || label.starts_with("ALSZ") || label.starts_with("KOS") || label == "preprocessed gates") {
+            continue;
+        }
         let mut seen: std::collections::HashMap<[u8; 16], usize> = std::collections::HashMap::with_capacity(b.len());
         for off in 0..=(b.len() - 16) {
             let w: [u8; 16] = b[off..off + 16].try_into().unwrap();
